@@ -27,12 +27,17 @@ class Crashed(Exception):
 
 def go_fatal(p):
     """A fatal error of the Go runtime (not a panic a caller could recover) ended the process."""
-    return p.returncode not in (0, 1) and ("fatal error:" in p.stderr or "goroutine stack exceeds" in p.stderr or "VERIF-HANG:" in p.stderr)
+    if p.returncode in (0, 1):
+        return False
+    if "fatal error:" in p.stderr or "goroutine stack exceeds" in p.stderr or "VERIF-HANG:" in p.stderr:
+        return True
+    # a panic on a goroutine the real code started itself (nothing can recover it): the trace names the library
+    return "panic: " in p.stderr and "\ngoroutine " in p.stderr and "github.com/aundis/formula." in p.stderr
 
 
 def fatal_text(p):
     for l in p.stderr.splitlines():
-        if "fatal error:" in l or "goroutine stack exceeds" in l or "VERIF-HANG:" in l:
+        if "fatal error:" in l or "goroutine stack exceeds" in l or "VERIF-HANG:" in l or l.startswith("panic: "):
             return l.strip()[:300]
     return p.stderr[:300]
 
@@ -356,7 +361,7 @@ class Ctx:
         if f["kind"] == "race":
             cmd = json.loads(f["payload"])["cmd"]
             cmd[0] = fv
-            for _ in range(3):          # a race needs the right timing: three attempts
+            for _ in range(8):          # a race needs the right timing: several attempts
                 try:
                     p = subprocess.run(cmd, capture_output=True, text=True, errors="replace", timeout=1800)
                 except subprocess.TimeoutExpired:
